@@ -305,7 +305,12 @@ class C06(Property):
             out.key = hashlib.md5(repr(spec).encode()).hexdigest()[:12]
 
     def _offsets(self, out, spec):
-        rep = sched_run.run_spec(spec, connect_only=True, check_model=False)
+        pushes = {}  # output object -> publication times observed at the public push_data
+
+        def on_push(o, data, time=None):
+            pushes.setdefault(o, []).append(time)
+
+        rep = sched_run.run_spec(spec, connect_only=True, check_model=False, listeners={"out_push_data": on_push})
         out.count("offset_cases")
         if rep.outcome != "ok":
             out.viol("offset_connect_failed", f"connect() of an acyclic composition with start offsets raised {rep.outcome}: {rep.message[:200]}", spec=spec, trace=rep.trace)
@@ -320,16 +325,16 @@ class C06(Property):
             for oname, o in comp.outputs.items():
                 if not o.has_targets:
                     continue
-                times = [e[0] for e in o.data]
+                times = pushes.get(o, [])
                 out.count("initial_publications_checked")
-                # history may already be trimmed by pulls, but the own-start publication must exist,
-                # and the composition-start one unless consumers already moved past it
                 if own not in times:
-                    out.viol("missing_publication_at_own_start", f"{c['name']}.{oname}: no publication at its own start {hrs(own)}h (has {[hrs(t) for t in times]})", spec=spec)
+                    out.viol("missing_publication_at_own_start", f"{c['name']}.{oname}: no initial publication at its own start {hrs(own)}h (published at {[hrs(t) for t in times]})", spec=spec)
                 if own != start:
                     out.count("double_initial_publications_expected")
-                    if start not in times and not (times and min(times) > start and len(times) >= 1 and o.data[0][0] == own and self._all_pulled(o)):
-                        out.viol("missing_publication_at_composition_start", f"{c['name']}.{oname}: no publication at composition start (has {[hrs(t) for t in times]})", spec=spec)
+                    if start not in times:
+                        out.viol("missing_publication_at_composition_start", f"{c['name']}.{oname}: no initial publication at the composition start (published at {[hrs(t) for t in times]})", spec=spec)
+                if len(times) != len(set(times)) or len(times) > 2:
+                    out.viol("repeated_initial_publication", f"{c['name']}.{oname}: initial publications at {[hrs(t) for t in times]}", spec=spec)
         # initial pulls deliver the producer's initial id (for chains that do not transform values)
         for ln in spec["links"]:
             dst = b.comps[ln["dst"][0]]
@@ -351,10 +356,6 @@ class C06(Property):
         import hashlib
 
         out.key = "off:" + hashlib.md5(repr(spec).encode()).hexdigest()[:12]
-
-    @staticmethod
-    def _all_pulled(o):
-        return all(t is not None for t in o._connected_inputs.values())  # pylint: disable=protected-access
 
     def coverage_gaps(self, counters, tier):
         need = ["protocol_cases", "offset_cases", "converged", "stall_errors", "stall_errors_with_2plus_stuck", "stall_errors_with_connected_bystanders",
